@@ -200,7 +200,7 @@ def _mixed_spec(rng) -> tuple[dict, str]:  # noqa: ANN001
     def provided(c: dict) -> str:
         return rng.choice(c["outputs"]) if c["kind"] == "surrogate" else c["name"]
 
-    defect = rng.choices(["none", "self", "cycle", "missing", "missing+cycle", "multi-missing"], [4, 3, 3, 2, 1, 1])[0]
+    defect = rng.choices(["none", "self", "cycle", "missing", "missing+cycle", "multi-missing", "many-missing", "long-missing"], [4, 3, 3, 2, 1, 1, 1, 1])[0]
     if defect in ("self",):
         c = rng.choice(nodes)
         set_args(c, args_of(c)[:2] + [provided(c)])
@@ -215,6 +215,18 @@ def _mixed_spec(rng) -> tuple[dict, str]:  # noqa: ANN001
         for c in rng.sample(nodes, 1 if defect != "multi-missing" else min(3, len(nodes))):
             extra = [f"nope{j}" for j in range(rng.randint(1, 2))]
             set_args(c, args_of(c)[:1] + extra)
+    if defect in ("many-missing", "long-missing"):
+        # one component naming 7..10 absent things, or an absent name of 30..60 characters: the error lists exactly those names
+        c = rng.choice([n for n in nodes if n["kind"] in ("derived", "reaction")] or nodes)
+        if defect == "many-missing":
+            extra = [f"absent{j}" for j in range(rng.randint(7, 10))]
+        else:
+            extra = ["ribulose_1_5_bisphosphate_carboxylase_oxygenase_vmax_" + "x" * rng.randint(0, 8), "nope0"][: rng.randint(1, 2)]
+        if c["kind"] in ("derived", "reaction"):
+            c["args"] = args_of(c)[:1] + extra
+            c["fn"] = fl.ref(fl.wn)
+        else:
+            set_args(c, args_of(c)[:1] + extra[:2])
     return {"components": comps}, f"{shape}/{defect}"
 
 
